@@ -1002,6 +1002,11 @@ class Builder:
         else:
             names = sorted(EXT)
             name = names[int(rng.integers(0, len(names)))]
+            if EXT[name].get('fieldonly'):
+                # library functions for Fields: only on values that are Fields under both styles
+                to, tn = self.tags_of(base) if base[0] != 'ext' else ('?', '?')
+                if not (to[0] == 'f' and to == tn):
+                    name = 'npcopy'
             args = [base] if EXT[name]['ar'] == 1 else [base, self.operand(v)]
             e = ['ext', name, args]
         if depth < 2 and rng.random() < 0.3 and c not in ('ext',) and k != 'b':
